@@ -479,7 +479,7 @@ def sh6(prog):
     out = []
     fs_ = [f for f in prog.lib_fns if f.name == "condition_model" and f.kind != "Closure"]
     for fn in fs_:
-        bodies = canon.local_bodies(prog, fn, ok=lambda h: True)
+        bodies = canon.local_bodies(prog, fn, ok=lambda h: h.impl_self == fn.impl_self and h.name not in ("cond_with_alloc", "condition"))
         sites = [(g, cs) for g in bodies for cs in g.terms.calls if cs.callee.name in ("condition", "cond_with_alloc") and len(cs.args) >= 4]
         errs = []
         key = "%s:SH6:each-literal" % fn.npath
